@@ -196,3 +196,25 @@ def validate_records(pid, name, records_path, chunk=4000, timeout=3600, workers=
             rejected.append({"index": o["offset"] + b, "record": json.loads(lines[o["offset"] + b - 1])})
     return {"records": len(lines), "accepted": len(lines) - len(rejected), "rejected": rejected,
             "tlc_states": sum(o["distinct"] for o in outs)}
+
+
+def run_search_algo(pid, name, algo_name, directed, maxn, weights=(1,), variant="fixed", workers=8, timeout=3600,
+                    heap="8g"):
+    """Model check one algorithm model of SearchAlgo.tla on every graph within the bounds."""
+    d = vf.fresh_dir(os.path.join(vf.RUN, pid, "algo-" + name))
+    consts = {"Algo": '= "%s"' % algo_name, "Directed": "= " + ("TRUE" if directed else "FALSE"),
+              "MaxN": "= %d" % maxn, "Weights": "= " + vf.tla_set(weights), "Variant": '= "%s"' % variant}
+    cfg = vf.write_cfg(os.path.join(d, "SearchAlgo.cfg"), consts, view="View",
+                       invariants=["ScanBound", "WorkBound", "BfsResultOK", "AllPredResultOK", "DijkstraResultOK"])
+    cmd = vf.tlc_cmd("SearchAlgo.tla", cfg, os.path.join(d, "md"), workers=workers, heap=heap)
+    t0 = time.time()
+    log = os.path.join(d, "tlc.log")
+    with open(log, "wb") as f:
+        try:
+            subprocess.run(cmd, cwd=vf.SPEC, stdout=f, stderr=subprocess.STDOUT, timeout=timeout, env=_env())
+        except subprocess.TimeoutExpired:
+            raise vf.Infra("TLC timed out on SearchAlgo " + name)
+    with open(log, errors="replace") as f:
+        p = vf.parse_tlc_output(f.read())
+    shutil.rmtree(os.path.join(d, "md"), ignore_errors=True)
+    return {"cases": "SearchAlgo:" + name, "tlc": p, "tlc_log": log, "wall_s": round(time.time() - t0, 1), "ah": None}
